@@ -76,6 +76,8 @@ def mix_label(net):
             lab = "angle>200gon"
         if k == "angle" and any(o.dh[1] != 0 or o.dh[2] != 0 for o in obs):
             lab += "(target-dh)"
+        if k == "angle" and any(net.pts[q].form == "blh" for o in obs for q in o.pts):
+            lab += "(blh)"
         kinds.append(lab)
     s = "+".join(kinds)
     if any(any(d != 0 for d in o.dh) for _, o in net.all_obs()):
@@ -125,9 +127,8 @@ def run_g3(text, tmp, name, alg, projeq=False):
     inp = os.path.join(tmp, name + ".xml")
     outp = os.path.join(tmp, name + "-%s-adj.xml" % alg)
     pe = os.path.join(tmp, name + "-%s-pe.xml" % alg)
-    if not os.path.exists(inp):
-        with open(inp, "w") as f:
-            f.write(text)
+    with open(inp, "w") as f:
+        f.write(text)
     cmd = [runner.binpath("san", "gama-g3"), "--algorithm", alg]
     if projeq:
         cmd += ["--project-equations", pe]
@@ -247,6 +248,8 @@ def compare(FA, FB, ctx, skip=()):
         for k, (cls, v) in F.items():
             if cls.startswith("cov"):
                 covscale[cls] = max(covscale.get(cls, 0.0), abs(v))
+                g = "cov:obs" if cls.startswith("cov:obs") else "cov:pt"
+                covscale[g] = max(covscale.get(g, 0.0), abs(v))
     keys = set(FA) | set(FB)
     ratios = {}
     for k in sorted(keys, key=str):
@@ -283,7 +286,10 @@ def compare(FA, FB, ctx, skip=()):
         elif cls == "h":
             tol = 1.01e-5 + tn * xs_m
         elif cls.startswith("cov"):
-            tol = 2.1e-7 * max(abs(a), abs(b)) + 20 * tn * covscale[cls] + 1e-300
+            # (a point kept in place by the regularisation has covariances that are zero up to rounding: the scale of
+            # the rounding errors is the size of the covariances in the network, not of this point)
+            glob = covscale["cov:obs" if cls.startswith("cov:obs") else "cov:pt"]
+            tol = 2.1e-7 * max(abs(a), abs(b)) + 20 * tn * covscale[cls] + 1e-9 * glob + 1e-300
         elif cls == "ss":
             tol = 2.1e-5 * max(abs(a), abs(b)) + tn * ctx["ss_scale"] + 1e-300
         elif cls == "res":
@@ -291,7 +297,7 @@ def compare(FA, FB, ctx, skip=()):
         elif cls == "val":
             tol = 1.01e-5 + tn * max(ctx["bs"], ctx["xs"]) / 1000.0
         elif cls == "sd":
-            tol = 1.01e-3 + 1e-6 * max(abs(a), abs(b)) + 20 * tn * max(abs(a), abs(b))
+            tol = 1.01e-3 + 1e-6 * max(abs(a), abs(b)) + 20 * tn * max(abs(a), abs(b)) + 3e-5 * math.sqrt(covscale.get("cov:obs", 0.0))
         else:
             tol = 0.0
         e = abs(a - b)
@@ -328,7 +334,11 @@ def expected_counts(net):
     return eq, len(g3gen.parameters(net))
 
 
-def check_exact(out, net, R, mix, wit):
+def sfx(R, ref):
+    return ":%s:singular" % R["stats"]["algorithm"] if ref is not None and ref.defect else ""
+
+
+def check_exact(out, net, R, mix, wit, ref=None):
     ok = True
     e, wid, cnt = truth_errors(net, R)
     out.ratio("a: |adjusted-truth| [m] / 1e-6", e, TOL_M)
@@ -348,7 +358,7 @@ def check_exact(out, net, R, mix, wit):
                       "gama-g3 rejected %d observation(s) of an error-free network: %s" % (len(R["rejected"]), R["rejected"][:2]), wit)
         ok = False
     if e > TOL_M or cmax > 1.01e-3 or rmax > 1.5e-5 or not (ss <= 1e-6 * max(eq, 1)):
-        out.violation("reproduce:%s:exact" % mix,
+        out.violation("reproduce:%s:exact%s" % (mix, sfx(R, ref)),
                       "error-free network with true approximate coordinates: max |adjusted-truth| %.3g m (point %s), max "
                       "|dn,de,du| %.3g mm, max |residual| %.3g m %s, sum of squares %.3g (%d points, %d equations)" % (
                           e, wid, cmax, rmax, rk, ss, cnt, eq), wit)
@@ -356,7 +366,7 @@ def check_exact(out, net, R, mix, wit):
     return ok
 
 
-def check_perturbed(out, net, R, mix, wit, delta, dmin):
+def check_perturbed(out, net, R, mix, wit, delta, dmin, ref=None):
     e, wid, cnt = truth_errors(net, R)
     lin = linear(net)
     bound = TOL_M if lin else C_BOUND * delta * delta / dmin + TOL_M
@@ -368,7 +378,7 @@ def check_perturbed(out, net, R, mix, wit, delta, dmin):
                           len(R["rejected"]), net.tol_abs, R["rejected"][:2]), wit)
         return False
     if e > bound:
-        out.violation("reproduce:%s:perturbed" % mix,
+        out.violation("reproduce:%s:perturbed%s" % (mix, sfx(R, ref)),
                       "error-free network, approximate coordinates off by <= %.3g m: after gama-g3's single Gauss-Newton "
                       "step max |adjusted-truth| = %.3g m at %s (bound %.3g m = %s, D_min %.1f m)" % (
                           delta, e, wid, bound, "1e-6 (linear model)" if lin else "10 d^2/D_min + 1e-6", dmin), wit)
@@ -694,13 +704,19 @@ def _work(out, seed, i, tier, tmp, keep_input):
         if not usable(out, g, w, mix, "exact"):
             continue
         okE[alg] = g
-        check_exact(out, E, g["R"], mix, w)
+        if n_dropped(E, g["R"]):
+            check_counts(out, E, g["R"], ref0, datum, w)     # reports the dropped observations
+            del okE[alg]
+            continue
+        check_exact(out, E, g["R"], mix, w, ref0)
         check_counts(out, E, g["R"], ref0, datum, w)
+    if len(okE) == 4:
+        out.count("networks adjusted by all four algorithms")
     if len(okE) >= 2:
         out.classes.append((mix, datum, place[0], "exact", "x4", "c"))
         algorithms_agree(out, okE, ctx_for(ref0, P0, next(iter(okE.values()))["R"], E), wit_for("exact", "all", textE), "exact")
     if not okE:
-        return                                  # refused (reported): nothing more to learn from this network
+        return                 # refused, or adjusted without some of its observations (reported): another network
 
     # ---------------- variant P: perturbed approximations (relation b, c; dump vs model)
     delta = float(rng.choice([0.05, 0.2, 1.0]))
@@ -719,7 +735,7 @@ def _work(out, seed, i, tier, tmp, keep_input):
         if not usable(out, g, w, mix, "perturbed"):
             continue
         okP[alg] = g
-        check_perturbed(out, Pn, g["R"], mix, w, dmax, dmin)
+        check_perturbed(out, Pn, g["R"], mix, w, dmax, dmin, ref1)
         if g["pe"] is not None and n_dropped(Pn, g["R"]) == 0:
             try:
                 D = g3gen.parse_adj_input(g["pe"])
@@ -905,11 +921,11 @@ def check_counts(out, net, R, ref, datum, wit):
         ok = False
     if ref.ok:
         if S["defect"] != ref.defect:
-            out.violation("defect:%s" % datum, "defect %d reported, parameters - rank(reference Jacobian) = %d (singular values "
+            out.violation("defect:%s:%s" % (datum, S["algorithm"]), "defect %d reported, parameters - rank(reference Jacobian) = %d (singular values "
                           "%s ... %s)" % (S["defect"], ref.defect, ref.sv[:2], ref.sv[-4:]), wit)
             ok = False
         if S["redundancy"] != eq - par + ref.defect:
-            out.violation("redundancy", "redundancy %d reported; equations - parameters + defect = %d - %d + %d = %d" % (
+            out.violation("redundancy:%s" % S["algorithm"], "redundancy %d reported; equations - parameters + defect = %d - %d + %d = %d" % (
                 S["redundancy"], eq, par, ref.defect, eq - par + ref.defect), wit)
             ok = False
         if linear(net) and datum == "free" and not any(o.kind == "xyz" for _, o in net.all_obs()) and ref.defect != 3:
@@ -936,7 +952,7 @@ def run(tier, seed, only=None):
                "covariances), observed coordinates, distances, ellipsoidal heights, height differences, zenith angles, angles, "
                "azimuths; fixed / free / constrained n-e-u; variants exact / perturbed (0.05, 0.2, 1 m) / noisy; x4 algorithms. "
                "class = (observation mix, datum, latitude band, variant, algorithm, relation a-f)")
-    n = tier_n(tier, 48, 1008)
+    n = tier_n(tier, 72, 1008)
     jobs = [(seed, i, tier, ck.tmp, True) for i in range(n) if only is None or i == only]
     outs = runner.pmap_proc(work, jobs) if len(jobs) > 1 else [work(j) for j in jobs]
     nviol = 0
@@ -969,8 +985,13 @@ def run(tier, seed, only=None):
         "floors from the printed precision of each field",
         "networks are admitted only if the reference rank is unambiguous and kappa <= 2e3 (terrestrial-only free networks have "
         "near-singular orientation on the ellipsoid and are not generated)",
+        "Jacobian rows of the dump are compared with the differentiated model up to the terms gama-g3 drops by design (dependence "
+        "of the station's normal / horizon on its position: 3 x sight / R relative, 1/R per metre absolute); relation b bounds "
+        "their effect on the result",
         "deflections of the vertical are zero; <unused> points and the <height> attribute are not exercised"]
-    ck.minimum = dict(evaluations=tier_n(tier, 300, 6000), distinct=tier_n(tier, 60, 200))
+    if only is None:
+        ck.minimum = dict(evaluations=tier_n(tier, 700, 10000), distinct=tier_n(tier, 200, 1500),
+                          **{"networks adjusted by all four algorithms": tier_n(tier, 40, 600)})
     return ck.finish()
 
 
